@@ -33,6 +33,7 @@ const tokensBufSize = 10
 
 type lexer struct {
 	inputs     <-chan string
+	inputsDone bool
 	input      string
 	lpUpd      func(string, int)
 	start, pos int
@@ -77,18 +78,17 @@ const (
 
 // next gets the next rune from the input.
 func (l *lexer) next() (r rune) {
-	if l.pos >= len(l.input) {
+	// refill until a whole rune is there or the inputs have ended;
+	// a chunk boundary can fall inside a multi-byte character
+	for !l.inputsDone && !utf8.FullRuneInString(l.input[l.pos:]) {
 		s, ok := <-l.inputs
 		if !ok {
-			if l.pos == l.start {
-				l.width = 0
-				return eof
-			}
-			// continue with leftover + s
+			l.inputsDone = true
+			break
 		}
-		l.input = l.input[l.start:l.pos] + s
+		l.lpUpd(s, l.posShift+len(l.input))
+		l.input = l.input[l.start:] + s
 		l.posShift += l.start
-		l.lpUpd(s, l.posShift+l.pos-l.start)
 		l.pos -= l.start
 		l.start = 0
 	}
